@@ -8,7 +8,7 @@ import vlib
 
 def main():
     with vlib.Lock():
-        for fl in ('plain',):
+        for fl in ('plain', 'asan', 'tsan'):
             vlib.build_admdrv(fl)
         ok, out, stats = vlib.translate()
         if not ok:
